@@ -43,6 +43,9 @@ def prefix_suffix(ctx, thorough):
             single = {}
             facts = [list(f) for f in rnd.sample(assertable, 6)]
             case = {"model": model, "h": h, "form": "elem", "prefix": random_prefix(rnd, model, [list(f) for f in assertable])}
+            if model == "univ" and len(cases) % 6 == 0:
+                # a dense earlier population, collected but NOT swept: the new instances may live at the addresses of dead related pairs
+                case["prefix"] = [{"k": "dense", "n": 40, "order": [], "keep": []}, {"k": "collect"}]
             if model == "univ":
                 wo = list(WORLD["univ"])
                 rnd.shuffle(wo)
@@ -53,6 +56,7 @@ def prefix_suffix(ctx, thorough):
             cases.append(case)
     results = replay("onto", cases)
     ctx.replayed += len(cases)
+    ctx.cov["instances_created_at_addresses_of_a_dead_dense_population"] = sum(r.get("world_at_dead_addresses", 0) for r in results)
     for c, r in zip(cases, results):
         bad = None
         for k, (m, o) in enumerate(zip(c["h"], r["steps"])):
